@@ -9,7 +9,11 @@ MANIFEST = {
     "note": "Trusted: Lean kernel; hand-written model (differential tie + TLV kernels); text fields enter the model as UTF-8/UTF-16 bytes (codecs are CPython's); strict-DER reading of X.690 in harness/der.py",
     "technique": "Lean 4 proof (composition of TLV round trips; spec-tree equality) + kernel extraction + correspondence + independent strict DER parser",
 }
-THEOREMS = ["DpapiNg.C06.blob_layout", "DpapiNg.C06.unpack_pack", "DpapiNg.C06.pack_unpack_pack", "DpapiNg.C06.protDesc_roundtrip", "DpapiNg.C06.encode_minimal", "DpapiNg.C06.protect_layout"]
+THEOREMS = ["DpapiNg.C06.blob_layout", "DpapiNg.C06.unpack_pack", "DpapiNg.C06.pack_unpack_pack", "DpapiNg.C06.protDesc_roundtrip", "DpapiNg.C06.encode_minimal", "DpapiNg.C06.protect_layout",
+            # model = interpretation of the writer programs regenerated from _pkcs7.py / _blob.py (Gen.WProg*_eq)
+            "DpapiNg.Blob.algIdPack_eq_prog", "DpapiNg.Blob.otherAttrPack_eq_prog", "DpapiNg.Blob.kekIdPack_eq_prog", "DpapiNg.Blob.kekRiPack_eq_prog",
+            "DpapiNg.Blob.encContentInfoPack_eq_prog", "DpapiNg.Blob.envelopedDataPack_eq_prog", "DpapiNg.Blob.contentInfoPack_eq_prog",
+            "DpapiNg.Blob.protDescPack_eq_prog"]
 RULE = ("blob values: key identifiers with boundary/random u32 fields and Unicode names, key_info sizes {0,1,32,33,100,524,800}, enc_content lengths "
         "{0,1,2,126,127,128,129,255,256,257,65535,65536,65537 (+2^24 thorough)}, enc_cek 0..72, parameters present/absent, both layouts; malformed: truncations / bit flips of emitted blobs; "
         "distinct by op line; non-trivial = a successful pack or unpack")
